@@ -19,7 +19,7 @@ if grep -q -- '--- FAIL' /tmp/suite$tag.out; then echo "SUITE: $(grep -- '--- FA
 run_demo; echo "demo-with-change rc=$? (expect non-zero)"
 cd /verif
 for p in "$@"; do
-  out=$(VERIF_REPO="$copy" ${SEED_TABLES:+VERIF_TABLES=1} timeout 1800 ./check "$p" 2>&1 | grep -E "^(VIOLATION|OK|CHECK-ERROR|KNOWN)" | head -4)
+  out=$(env VERIF_REPO="$copy" ${SEED_TABLES:+VERIF_TABLES=1} timeout 1800 ./check "$p" 2>&1 | grep -E "^(VIOLATION|OK|CHECK-ERROR|KNOWN)" | head -4)
   echo "CHECK $p: $out"
 done
 rm -rf "$copy"
